@@ -17,9 +17,12 @@
 //     packet exactly as PubSession.feedPacket does.  Synchronous, so a panic
 //     inside lal is recovered and shrinkable, and arrival perturbation can
 //     be applied;
-//   - real TCP (about one case in twelve): CtrlStartRtpPub in TCP mode on a
-//     port lal picks, a loopback connection, RFC 4571 framing (2-byte length
-//     prefix) through PubSession's own read loop.
+//   - the real session (about half of the cases, a quarter each): CtrlStartRtpPub
+//     in TCP mode (loopback connection, RFC 4571 framing through the session's
+//     own read loop) or in UDP mode (loopback datagrams to the port lal picked,
+//     read by the session's own UDP goroutine), paced against the session's
+//     read-byte counter; the generated arrival order (reordering, duplicates)
+//     applies to all three entries.
 package c07
 
 import (
@@ -49,7 +52,8 @@ type GbCase struct {
 	Ssrc     uint32  `json:"ssrc"`
 	DtsDelay int64   `json:"dts_delay,omitempty"` // > 0: video PES carry PTS and DTS = PTS - delay
 	MuxRate  uint32  `json:"mux_rate"`
-	Tcp      bool    `json:"tcp,omitempty"`
+	Tcp      bool    `json:"tcp,omitempty"` // through the real session's TCP socket
+	Udp      bool    `json:"udp,omitempty"` // through the real session's UDP socket
 	Pert     Perturb `json:"pert"`
 }
 
@@ -200,42 +204,54 @@ func runGbOnce(c *GbCase, pk []wirePkt) ([]observed, *pbt.Violation) {
 	if resp.ErrorCode != base.ErrorCodeSucc {
 		lalclient.Harness("c07: CtrlStartRtpPub failed (no free port?): %+v", resp)
 	}
-	if c.Tcp {
-		conn, err := net.DialTimeout("tcp", fmt.Sprintf("127.0.0.1:%d", resp.Data.Port), 5*time.Second)
-		if err != nil {
-			lalclient.Harness("c07: dial gb28181 tcp port %d: %v", resp.Data.Port, err)
+	if c.Tcp || c.Udp {
+		// the real session: lal's own socket and read loop (TCP: RFC 4571 framing; UDP: one packet per datagram), paced
+		// against the session's read-byte counter so that nothing is dropped and the arrival order is the generated one
+		var write func(raw []byte)
+		if c.Tcp {
+			conn, err := net.DialTimeout("tcp", fmt.Sprintf("127.0.0.1:%d", resp.Data.Port), 5*time.Second)
+			if err != nil {
+				lalclient.Harness("c07: dial gb28181 tcp port %d: %v", resp.Data.Port, err)
+			}
+			defer conn.Close()
+			write = func(raw []byte) {
+				b := make([]byte, 2+len(raw))
+				binary.BigEndian.PutUint16(b, uint16(len(raw)))
+				copy(b[2:], raw)
+				_ = conn.SetWriteDeadline(time.Now().Add(10 * time.Second))
+				if _, err := conn.Write(b); err != nil {
+					lalclient.Harness("c07: write to gb28181 tcp connection: %v", err)
+				}
+			}
+		} else {
+			sock, err := net.ListenUDP("udp4", &net.UDPAddr{IP: net.IPv4(127, 0, 0, 1)})
+			if err != nil {
+				lalclient.Harness("c07: udp socket: %v", err)
+			}
+			defer sock.Close()
+			dst := &net.UDPAddr{IP: net.IPv4(127, 0, 0, 1), Port: resp.Data.Port}
+			write = func(raw []byte) {
+				if _, err := sock.WriteToUDP(raw, dst); err != nil {
+					lalclient.Harness("c07: udp send: %v", err)
+				}
+			}
 		}
-		defer conn.Close()
-		total := uint64(0)
+		acks := &ackedSender{s: s}
 		send := func(raw []byte) {
-			b := make([]byte, 2+len(raw))
-			binary.BigEndian.PutUint16(b, uint16(len(raw)))
-			copy(b[2:], raw)
-			_ = conn.SetWriteDeadline(time.Now().Add(10 * time.Second))
-			if _, err := conn.Write(b); err != nil {
-				lalclient.Harness("c07: write to gb28181 tcp connection: %v", err)
-			}
-			total += uint64(len(raw))
+			write(raw)
+			acks.sent(len(raw))
 		}
-		// barrier: a stale duplicate of the first packet is sent; lal counts a packet before it parses it and parses
-		// in the reading goroutine, so once the duplicate has been counted everything before it has been processed
-		// completely (the duplicate itself is discarded by the reorder list)
+		// barrier: lal counts a packet before it parses it and parses in the reading goroutine, so once a duplicate of
+		// the last packet (discarded by the reorder list as stale or as already present) has been counted, everything
+		// before it has been processed completely
+		var last []byte
 		barrier := func() {
-			send(pk[0].raw)
-			deadline := time.Now().Add(20 * time.Second)
-			for {
-				st := s.SM.StatGroup(streamName)
-				if st != nil && st.StatPub.ReadBytesSum >= total {
-					return
-				}
-				if time.Now().After(deadline) {
-					lalclient.Harness("c07: gb28181 tcp session consumed %v of %d bytes within 20 s", st, total)
-				}
-				time.Sleep(200 * time.Microsecond)
-			}
+			send(last)
+			acks.wait()
 		}
 		for i, p := range pk {
 			send(p.raw)
+			last = p.raw
 			if i%syncEvery == syncEvery-1 {
 				barrier()
 				if v := x.sync(); v != nil {
@@ -275,7 +291,7 @@ func runGb(c GbCase) *pbt.Violation {
 	if v := judgeAll(&c.S, e, base); v != nil {
 		return v
 	}
-	if !c.Pert.active() || c.Tcp {
+	if !c.Pert.active() {
 		return nil
 	}
 	pert, v := runGbOnce(&c, perturb(pk, c.Pert))
@@ -346,23 +362,29 @@ func genGb(t *rapid.T) GbCase {
 	if rapid.IntRange(0, 2).Draw(t, "ptsDts") == 0 {
 		c.DtsDelay = rapid.SampledFrom([]int64{3600, 7200, 1, 90000}).Draw(t, "dtsDelay")
 	}
-	c.Tcp = rapid.IntRange(0, 11).Draw(t, "tcp") == 0
-	if !c.Tcp {
-		c.Pert = genPerturb(t)
-		if rapid.IntRange(0, 1).Draw(t, "inOrder") == 0 {
-			c.Pert = Perturb{}
-		}
+	switch rapid.IntRange(0, 7).Draw(t, "entry") {
+	case 2, 5:
+		c.Tcp = true
+	case 3, 6:
+		c.Udp = true
+	}
+	c.Pert = genPerturb(t)
+	if rapid.IntRange(0, 1).Draw(t, "inOrder") == 0 {
+		c.Pert = Perturb{}
 	}
 	return c
 }
 
 func classifyGb(c GbCase) (bool, []string) {
 	l := append([]string{"kind:gb"}, streamLabels(&c.S)...)
-	if c.Tcp {
-		l = append(l, "entry:tcp-socket")
-	} else {
-		l = append(l, "entry:in-process")
+	entry := "in-process"
+	switch {
+	case c.Tcp:
+		entry = "tcp-socket"
+	case c.Udp:
+		entry = "udp-socket"
 	}
+	l = append(l, "entry:"+entry)
 	feat := map[string]bool{}
 	for i, u := range c.S.Units {
 		if i < c.S.NPre {
@@ -427,10 +449,10 @@ func classifyGb(c GbCase) (bool, []string) {
 	if wrap {
 		l = append(l, "seq-wrap")
 	}
-	if c.Pert.active() && !c.Tcp {
-		l = append(l, "pert:reorder/dup", combo("gb", &c.S, "reorder|dup"))
+	if c.Pert.active() {
+		l = append(l, "pert:reorder/dup", combo("gb:"+entry, &c.S, "reorder|dup"))
 	} else {
-		l = append(l, "pert:none", combo("gb", &c.S, "none"))
+		l = append(l, "pert:none", combo("gb:"+entry, &c.S, "none"))
 	}
 	n := 0
 	for f := range feat {
